@@ -48,6 +48,12 @@ SCHEMAS = [
         {"name": "d", "type": ["null", "int"], "default": None}, {"name": "e", "type": {"type": "array", "items": "int"}, "default": []}]},
      [{"a": 1, "b": "hello world", "c": 2 ** 40, "d": 5, "e": [1, 2]}, {"a": 2, "b": "", "c": 0, "d": None, "e": []}, {"a": 3, "b": "x", "c": -1, "d": 64, "e": [3]},
       {"a": 4, "b": "y" * 70, "c": 8192, "d": None, "e": []}, {"a": 5, "b": "z", "c": 1, "d": 1, "e": [0]}, {"a": 6, "b": "w", "c": 2, "d": None, "e": [7, 8, 9]}]),
+    # values that END in a nullable union (the last thing read is a union index)
+    ("nullable-top", ["null", "string"], [None, "a", "", None, "zz" * 30, "q"]),
+    ("nullable-last", {"type": "record", "name": "NL", "fields": [{"name": "a", "type": "int"}, {"name": "u", "type": ["null", "string"]}]},
+     [{"a": 1, "u": None}, {"a": 2, "u": "x"}, {"a": 3, "u": ""}, {"a": -64, "u": None}, {"a": 5, "u": "yy"}, {"a": 6, "u": None}]),
+    ("nullable-first-branch-value", {"type": "record", "name": "NV", "fields": [{"name": "u", "type": ["long", "null"]}]},
+     [{"u": 7}, {"u": None}, {"u": -8192}, {"u": 0}, {"u": None}, {"u": 1}]),
     ("tail", {"type": "record", "name": "Tail", "fields": [
         {"name": "f", "type": "float"}, {"name": "d", "type": "double"}, {"name": "by", "type": "bytes"},
         {"name": "fx", "type": {"type": "fixed", "name": "Fx", "size": 2}}, {"name": "m", "type": {"type": "map", "values": "boolean"}},
